@@ -271,24 +271,23 @@ class MergedSequences(Generic[_ValueT]):
   def __len__(self) -> int:
     return self._seq_idxs[-1]
 
-  def _index(self, index: int | _SliceT) -> _MergedSequenceIndex:
-    index = len(self) + index if index < 0 else index
-    indices = self._seq_idxs
-    idx_seq = bisect.bisect_left(indices, index)
-    if idx_seq == len(indices) and index > indices[-1]:
-      return _MergedSequenceIndex(idx_seq - 1)
-    if index == indices[idx_seq]:
-      return _MergedSequenceIndex(idx_seq, 0)
-    return _MergedSequenceIndex(idx_seq - 1, index - indices[idx_seq - 1])
+  def _index(self, index: int) -> _MergedSequenceIndex:
+    """Locates an index in [0, len(self)], len(self) is one past the end."""
+    # bisect_right skips the empty sequences that start at the same index.
+    idx_seq = bisect.bisect_right(self._seq_idxs, index) - 1
+    if idx_seq >= len(self._sequences):
+      return _MergedSequenceIndex(len(self._sequences), 0)
+    return _MergedSequenceIndex(idx_seq, index - self._seq_idxs[idx_seq])
 
   def slice(self, slice_: _SliceT) -> Iterator[_ValueT]:
     """Slices the merged sequences."""
     if slice_.step is not None:
       raise NotImplementedError(f'step is not supported, got {slice_}')
-    start = self._index(slice_.start or 0)
-    stop = self._index(len(self) if slice_.stop is None else slice_.stop)
-    if start.seq_idx == len(self._sequences):
+    # Clips negative and out of range bounds the same way as a list does.
+    start_index, stop_index, _ = slice_.indices(len(self))
+    if start_index >= stop_index:
       return iter(())
+    start, stop = self._index(start_index), self._index(stop_index)
     if start.seq_idx == stop.seq_idx:
       return self._index_slice(start.seq_idx, start.idx, stop.idx)
     # Chain multiple sequences together with correct slices.
@@ -302,7 +301,10 @@ class MergedSequences(Generic[_ValueT]):
   def __getitem__(self, index: int | Any) -> _ValueT | Iterator[_ValueT]:
     if isinstance(index, slice):
       return self.slice(index)
-    multi_idx = self._index(index)
+    normalized_index = len(self) + index if index < 0 else index
+    if not 0 <= normalized_index < len(self):
+      raise IndexError(f'Index {index} is out of range.')
+    multi_idx = self._index(normalized_index)
     try:
       return self._sequences[multi_idx.seq_idx][multi_idx.idx]
     except IndexError:
